@@ -277,6 +277,13 @@ class MWorld:
 
     def client(self, src):
         s = socket.socket(socket.AF_INET, socket.SOCK_STREAM)
+        # IP_BIND_ADDRESS_NO_PORT (Linux): pick the source port at connect() time, where only the 4-tuple has to be
+        # unique; a plain bind((src, 0)) draws from one pool of ~28 k ports per source address for ALL destinations
+        # and runs dry (EADDRINUSE) when a fast machine makes more connections than that within TIME_WAIT
+        try:
+            s.setsockopt(socket.IPPROTO_IP, 24, 1)
+        except OSError:
+            pass
         s.bind((src, 0))
         s.connect(('127.0.0.1', self.sq.http_port))
         return ls.Conn(s)
